@@ -92,12 +92,12 @@ class Ctx:
         self.rules.append(r)
         return r
 
-    def include(self, other_pid, why, skip=()):
+    def include(self, other_pid, why, skip=(), only=None):
         """run another property's rules as rules of this property (ids `<this>.<other>.<rule>`): used where this
         property quantifies over every shape and backend and therefore *needs* the other one - a renderer that skips
         tiles on interval evidence is right only if interval evaluation encloses, traces are what simplification
         assumes, and the per-pixel evaluators compute the expression.  `skip`: rule ids of the other property that
-        concern code this property does not reach."""
+        concern code this property does not reach; `only`: take just these rules."""
         import importlib
 
         parent = self
@@ -111,12 +111,13 @@ class Ctx:
 
             def rule(self_, rid, title, floor, design_ref=""):
                 r = Rule(parent, "%s.%s.%s" % (parent.pid, other_pid, rid), "[needs %s: %s] %s" % (other_pid, why, title), floor, design_ref)
-                if rid not in skip:
+                if rid not in skip and (only is None or rid in only):
                     parent.rules.append(r)
                 return r
 
             def guarded(self_, rule, fn, *a, **kw):
-                if rule.id.rsplit(".", 1)[-1] in skip:
+                rid_ = rule.id.rsplit(".", 1)[-1]
+                if rid_ in skip or (only is not None and rid_ not in only):
                     return None
                 return parent.guarded(rule, fn, *a, **kw)
 
